@@ -9,6 +9,11 @@ HELPERS = [
     ('aa', [('V', 'T')], ('conj', ('call', '=', [('V', 'G'), ('V', 'T')]), ('call', 'asserta', [('V', 'G')]))),
     ('rt', [('V', 'T')], ('conj', ('call', '=', [('V', 'G'), ('V', 'T')]), ('call', 'retract', [('V', 'G')]))),
     ('ra', [('V', 'T')], ('conj', ('call', '=', [('V', 'G'), ('V', 'T')]), ('call', 'retractall', [('V', 'G')]))),
+    # assert a fact, bind one of the asserting goal's variables afterwards, and use the store while it is bound
+    ('azq', [('V', 'T'), ('V', 'V'), ('V', 'A'), ('V', 'P')],
+     ('conj', ('call', 'assertz', [('V', 'T')]), ('conj', ('call', '=', [('V', 'V'), ('V', 'A')]), ('call', 'call', [('V', 'P')])))),
+    ('aar', [('V', 'T'), ('V', 'V'), ('V', 'A'), ('V', 'P')],
+     ('conj', ('call', 'asserta', [('V', 'T')]), ('conj', ('call', '=', [('V', 'V'), ('V', 'A')]), ('call', 'retract', [('V', 'P')])))),
 ]
 
 
@@ -90,9 +95,14 @@ def history(rnd, length):
             if arity == 2 and rnd.random() < 0.4:
                 args = [v(0), v(0)] if rnd.random() < 0.7 else [v(0), v(1)]      # non-linear / all-variable patterns
             ops.append(('query', rnd.choice(['retractall', 'ra']), ('all',), [fact_term(name, args)]))
-        elif r < 0.9:
+        elif r < 0.85:
             args = [pattern_term(rnd, 2) for _ in range(arity)]
             ops.append(('query', name, rnd.choice([('all',), ('all',), ('stop', 1)]), args))
+        elif r < 0.905 and arity >= 1:
+            args = [value_term(rnd, 2, 0.5) for _ in range(arity)]
+            pat = [pattern_term(rnd, 4) for _ in range(arity)]
+            ops.append(('query', rnd.choice(['azq', 'aar']), ('all',),
+                        [fact_term(name, args), v(rnd.randrange(2)), [Sym('a'), rnd.choice(['a', 'b'])], fact_term(name, pat)]))
         elif r < 0.92:
             ops.append(('clear',))
             ops.append(('load', 'overwrite', HELPERS + MOVERS))
